@@ -43,6 +43,9 @@ def powModAux (m : Nat) : Nat → Nat → Nat → Nat → Nat
 
 def powMod (b e m : Nat) : Nat := powModAux m e (b % m) e (1 % m)
 
+/-- Python `a ^ b` for non-negative ints (the only use is on parities) -/
+def pyXor (a b : Int) : Int := ((a.toNat ^^^ b.toNat : Nat) : Int)
+
 /-- `int.from_bytes(x, "big")` -/
 def os2ip (x : Bytes) : Nat := x.foldl (fun acc b => acc * 256 + b.toNat) 0
 
